@@ -422,6 +422,9 @@ pub fn run(ctx: &Ctx) -> PropReport {
     }));
     rep.push(generated_programs(ctx, ctx.tier.pick(3_000, 100_000)));
     rep.push(exec_cmd_cases(ctx, ctx.tier.pick(2, 6)));
+    if ctx.tier == Tier::Thorough {
+        rep.push(crate::fuzzrun::campaign(ctx, "C01", "exec_program", 2_000_000, 1024));
+    }
     rep
 }
 
